@@ -210,7 +210,7 @@ func chainStreams(c *mon.Ctx, h *hostile.Harness) {
 	ctx := context.Background()
 
 	// ---------------------------------------------------------------- blocks
-	c.Cases("block", c.N(96, 6000), func(k *mon.Case) {
+	c.Cases("block", c.N(96, 1500), func(k *mon.Case) {
 		w := getWorld(k)
 		if w == nil {
 			return
@@ -285,7 +285,7 @@ func chainStreams(c *mon.Ctx, h *hostile.Harness) {
 	})
 
 	// ---------------------------------------------------------------- transactions (gossip)
-	c.Cases("tx-gossip", c.N(64, 5000), func(k *mon.Case) {
+	c.Cases("tx-gossip", c.N(64, 1000), func(k *mon.Case) {
 		w := getWorld(k)
 		if w == nil {
 			return
@@ -338,7 +338,7 @@ func chainStreams(c *mon.Ctx, h *hostile.Harness) {
 	})
 
 	// ---------------------------------------------------------------- single commits
-	c.Cases("single-commits", c.N(64, 5000), func(k *mon.Case) {
+	c.Cases("single-commits", c.N(64, 1000), func(k *mon.Case) {
 		w := getWorld(k)
 		if w == nil {
 			return
@@ -419,7 +419,7 @@ func chainStreams(c *mon.Ctx, h *hostile.Harness) {
 	})
 
 	// ---------------------------------------------------------------- aggregate commits
-	c.Cases("aggregate-commit", c.N(128, 12000), func(k *mon.Case) {
+	c.Cases("aggregate-commit", c.N(128, 2000), func(k *mon.Case) {
 		w := getWorld(k)
 		if w == nil {
 			return
@@ -527,7 +527,7 @@ func chainStreams(c *mon.Ctx, h *hostile.Harness) {
 	})
 
 	// ---------------------------------------------------------------- RPC envelopes and handlers
-	c.Cases("rpc", c.N(96, 6000), func(k *mon.Case) {
+	c.Cases("rpc", c.N(96, 1500), func(k *mon.Case) {
 		w := getWorld(k)
 		if w == nil {
 			return
@@ -624,7 +624,7 @@ func chainStreams(c *mon.Ctx, h *hostile.Harness) {
 	})
 
 	// ---------------------------------------------------------------- sync client side (decoding)
-	c.Cases("sync-client-decode", c.N(48, 4000), func(k *mon.Case) {
+	c.Cases("sync-client-decode", c.N(48, 700), func(k *mon.Case) {
 		w := getWorld(k)
 		if w == nil {
 			return
